@@ -30,7 +30,7 @@ def show_op(op):
     return '%s(%s)' % (op[0], ', '.join(repr(x) for x in op[1:]))
 
 class Node:
-    __slots__ = ('h', 'kind', 'name', 'data', 'p', 'c', 'f', 'l', 'pv', 'nx', 'k', 'a', 'n', 'sp', 'm')
+    __slots__ = ('h', 'kind', 'name', 'data', 'p', 'c', 'f', 'l', 'pv', 'nx', 'k', 'a', 'n', 'ow', 'm')
     def __repr__(self):
         return 'Node(%s %s %r p=%s c=%s k=%s)' % (self.h, self.kind, self.name, self.p, self.c, self.k)
 
@@ -55,6 +55,9 @@ class Rec:
         self.nodes = {}
         self.serial = {}
         self.bad = None
+        self.skipped = (d == '-')
+        if self.skipped:
+            return
         if d in ('', 'dump-panic'):
             self.bad = d or 'no-dump'
             return
@@ -67,7 +70,7 @@ class Rec:
             n = Node()
             h, _, kind = f[0].partition('=')
             n.h, n.kind, n.name, n.data = int(h), kind, f[1], f[2]
-            n.a = n.n = n.m = None; n.sp = None
+            n.a = n.n = n.m = None; n.ow = None
             for x in f[3:]:
                 key, _, v = x.partition('=')
                 if key == 'p': n.p = _h(v)
@@ -79,7 +82,7 @@ class Rec:
                 elif key == 'k': n.k = int(v)
                 elif key == 'a': n.a = _hl(v)
                 elif key == 'n': n.n = _hl(v)
-                elif key == 'sp': n.sp = int(v)
+                elif key == 'ow': n.ow = _h(v)
                 elif key == 'm':
                     n.m = [] if v == '-' else [tuple(_h(y) for y in it.split(':')) for it in v.split(';')]
             self.nodes[n.h] = n
@@ -123,6 +126,8 @@ def child_owner(rec):
 def c12_violations(rec):
     """navigation-agreement clauses of C12 on one dump -> list of (clause, detail)"""
     v = []
+    if rec.skipped:
+        return []
     if rec.bad:
         return [('dump', rec.bad)]
     N = rec.nodes
@@ -162,6 +167,12 @@ def c12_violations(rec):
                 v.append(('orphan-sibling', 'node %d has no parent but previous/next sibling %s/%s' % (n.h, n.pv, n.nx)))
         if n.kind == 'at' and (n.p is not None or n.pv is not None or n.nx is not None):
             v.append(('attr-nav', 'attribute %d reports parent/sibling %s/%s/%s' % (n.h, n.p, n.pv, n.nx)))
+        if n.kind == 'at':
+            listed_by = [o for (w, o) in own.get(n.h, []) if w in ('a', 'n')]
+            if n.ow is not None and n.ow not in listed_by:
+                v.append(('attr-owner', 'attribute %d has owner element %s which does not list it' % (n.h, n.ow)))
+            if n.ow is None and listed_by:
+                v.append(('attr-owner', 'attribute %d is listed by element %s but has no owner element' % (n.h, listed_by)))
         # the document: at most one element, one doctype
         if n.kind == 'doc':
             ne = sum(1 for x in c if x in N and N[x].kind == 'el')
@@ -227,6 +238,8 @@ def preorder(rec, root):
 
 def c14_violations(rec):
     """keys of attached nodes: non-zero, distinct, strictly increasing along the pre-order walk; detached: 0"""
+    if rec.skipped:
+        return []
     if rec.bad:
         return [('dump', rec.bad)]
     v = []
@@ -253,12 +266,18 @@ def query_violation(rec):
     """`Q` op: node-set on the edited document vs on the re-parse of its serialisation, as pre-order ranks"""
     if not rec.result.startswith('q:'):
         return None
-    a, _, b = rec.result[2:].partition('/')
-    if b in ('noparse',):
+    parts = rec.result[2:].split(';')
+    a, _, b = parts[0].partition('/')
+    a2, _, b2 = (parts[1] if len(parts) > 1 else parts[0]).partition('/')
+    has_empty = len(parts) > 2 and parts[2] == 'e1'
+    if b == 'noparse':
         return None
-    if a != b:
-        return ('query', 'edited document selects ranks %s, re-parsed serialisation selects %s' % (a, b))
-    return None
+    if a == b:
+        return None
+    if has_empty:
+        return ('query-empty-text', 'edited document (which holds a text node without characters) selects ranks %s, re-parsed serialisation selects %s%s'
+                % (a, b, '; equal once such nodes are ignored' if a2 == b2 else ''))
+    return ('query', 'edited document selects ranks %s, re-parsed serialisation selects %s' % (a, b))
 
 # ------------------------------------------------------------------ running
 def run_cases(binary, cases, shards=None, timeout=900):
@@ -279,6 +298,14 @@ def strip_init(line):
     if recs and recs[0].startswith('init '):
         recs[0] = 'init # ' + recs[0].partition(' # ')[2]
     return recs
+
+def init_bits(model_line):
+    """`ti=` field of the model's record 0: one bit per document, result of the extracted tree_inv_b"""
+    head = model_line.split(' | ')[0].partition(' # ')[0]
+    for w in head.split(' '):
+        if w.startswith('ti='):
+            return w[3:]
+    return None
 
 def first_mismatch(impl_line, model_line):
     """index of the first record on which the two sides differ (Q results are implementation-only)"""
@@ -600,3 +627,220 @@ def first_violation(docs, ops, view, oracle):
 
 def cache_path(run, name):
     return os.path.join(lib.WORK, 'dom_%s_%s_%s_%s.json' % (name, run.tier, run.seed, lib.repo_tree_hash()))
+
+# ------------------------------------------------------------------ the shared campaign of C12 / C14
+QUERIES = ['//node()', '//*', '//@*', '//text()', '/*/*[last()]', '/*/*[1]/following-sibling::node()', '//*/preceding-sibling::node()',
+           '//*[@*]', '//comment()|//processing-instruction()', '/*/descendant-or-self::node()', '//*/..', '//*/@*/..',
+           '//text()/ancestor::*', '/*/*[2]/preceding::*', '/*/*[1]/following::*', '//*[last()]', '/*//*[position()=1]',
+           '//*/*|//@*', '//node()[1]', '(//*)[last()]/ancestor-or-self::*']
+
+def source_hash():
+    h = hashlib.sha256()
+    for f in ('checks/domlib.py', 'harness/src/domains/dom.rs', 'ocaml/domains/dom/dom.ml', 'coq/theories/Model/Store.v',
+              'coq/theories/Model/DomOps.v', 'coq/theories/Model/StoreCheck.v'):
+        try: h.update(open(os.path.join(lib.VERIF, f), 'rb').read())
+        except OSError: pass
+    return h.hexdigest()[:12]
+
+class Stats:
+    """duck-typed stand-in for lib.Run while generating (only .count is used)"""
+    def __init__(self): self.hist = {}
+    def count(self, k, n=1): self.hist[k] = self.hist.get(k, 0) + n
+
+def analyse(cases, impl_lines, model_lines, summary, memo, tag):
+    """cases: list of (docs, ops, view); fills summary (mismatches, violations per property, histogram)"""
+    H = summary['hist']
+    def cnt(k, n=1): H[k] = H.get(k, 0) + n
+    for (docs, ops, view), il, ml in zip(cases, impl_lines, model_lines or [None] * len(cases)):
+        summary['cases'] += 1
+        cnt('cases:' + tag)
+        recs_txt = il.split(' | ')
+        if ' # ' not in il:
+            summary['crashes'].append({'docs': docs, 'ops': [list(o) for o in ops], 'view': view, 'line': il[:200]})
+            continue
+        if ml is not None:
+            bits = init_bits(ml)
+            if bits is None or '0' in bits:
+                summary['ti_fail'] += 1
+            i = first_mismatch(il, ml)
+            if i is not None:
+                summary['mismatches'].append({'docs': docs, 'ops': [list(o) for o in ops[:i]], 'view': view, 'record': i, 'tag': tag})
+        prev = None
+        found = set()
+        for i, txt in enumerate(recs_txt):
+            head, _, dump = txt.partition(' # ')
+            if i > 0:
+                summary['ops'] += 1
+                res = head.split(' ')[0]
+                cls = res.split(':')[0] + (':' + res.split(':')[1] if res.startswith('err') else '')
+                cnt('op:' + ops[i - 1][0]); cnt('result:' + cls)
+                if cls != 'na':
+                    summary['nontrivial'].add(hash((prev, mkop(ops[i - 1]))))
+                if res.startswith('q:'):
+                    qv = query_violation(Rec(head + ' # -'))
+                    cnt('query:' + ('equal' if qv is None else qv[0]))
+                    if qv is not None and ('c14', qv[0]) not in found:
+                        found.add(('c14', qv[0]))
+                        summary['c14'].append({'docs': docs, 'ops': [list(o) for o in ops[:i]], 'view': view, 'clause': qv[0], 'detail': qv[1], 'tag': tag})
+            if dump == '-' or dump == prev:
+                prev = dump if dump != '-' else prev
+                continue
+            prev = dump
+            if dump in memo:
+                v12, v14 = memo[dump]
+            else:
+                r = Rec(txt)
+                v12, v14 = c12_violations(r), c14_violations(r)
+                memo[dump] = (v12, v14)
+                summary['states'] += 1
+            for prop, vs in (('c12', v12), ('c14', v14)):
+                for clause, detail in vs[:2]:
+                    if (prop, clause) in found: continue
+                    found.add((prop, clause))
+                    summary[prop].append({'docs': docs, 'ops': [list(o) for o in ops[:i]], 'view': view, 'clause': clause, 'detail': detail, 'tag': tag})
+
+def with_queries(ops, rng, every=5, batch=4):
+    out = []
+    for i, o in enumerate(ops):
+        out.append(o)
+        if (i + 1) % every == 0:
+            out += [('Q', 0, q) for q in rng.sample(QUERIES, batch)]
+    out += [('Q', 0, q) for q in rng.sample(QUERIES, batch)]
+    return out
+
+def campaign(run, log=lib.log):
+    """matrix + exhaustive short histories + random histories, model-vs-implementation and both oracles.
+    The result is cached (work/dom_campaign_*.json) so that C12 and C14 share one run."""
+    path = os.path.join(lib.WORK, 'dom_campaign_%s_%s_%s_%s.json' % (run.tier, run.seed, lib.repo_tree_hash(), source_hash()))
+    if os.path.exists(path) and time.time() - os.path.getmtime(path) < 6 * 3600 and not os.environ.get('VERIF_DOM_NOCACHE'):
+        s = json.load(open(path))
+        s['cached'] = True
+        return s
+    import random
+    rng = random.Random(run.seed)
+    thorough = run.tier == 'thorough'
+    summary = {'cases': 0, 'ops': 0, 'states': 0, 'mismatches': [], 'c12': [], 'c14': [], 'crashes': [], 'ti_fail': 0,
+               'hist': {}, 'nontrivial': set(), 'samples': [], 'times': {}}
+    memo = {}
+    t0 = time.time()
+    # (a) the single-call matrix from one rich state
+    docs, pre, calls = matrix_cases()
+    cases = [(docs, pre + [c], 'r!%d' % len(pre)) for c in calls]
+    lines = [mkcase(*c) for c in cases]
+    il = run_impl(lines); ml = run_model(lines, il)
+    analyse(cases, il, ml, summary, memo, 'matrix')
+    summary['samples'].append({'kind': 'matrix', 'documents': docs, 'prefix': [show_op(o) for o in pre], 'calls': len(calls),
+                               'first': [show_op(o) for o in calls[:3]]})
+    summary['times']['matrix'] = round(time.time() - t0, 1); t0 = time.time()
+    # (b) exhaustive short histories over a small document
+    sdocs = [SMALL]
+    rec0 = parse_line(run_impl([mkcase(sdocs, [])], shards=1)[0])[0]
+    alpha = short_alphabet(rec0, sdocs)
+    if thorough:
+        a2 = alpha
+        a3 = alpha[::max(1, len(alpha) // 60)]
+    else:
+        a2 = alpha[::max(1, len(alpha) // 110)]
+        a3 = []
+    cases = [(sdocs, [a], 'r') for a in alpha] + [(sdocs, [a, b], 'r') for a in a2 for b in a2]
+    cases += [(sdocs, [a, b, c], 'r') for a in a3 for b in a3 for c in a3]
+    for k in range(0, len(cases), 40000):
+        chunk = cases[k:k + 40000]
+        lines = [mkcase(*c) for c in chunk]
+        il = run_impl(lines); ml = run_model(lines, il)
+        analyse(chunk, il, ml, summary, memo, 'short')
+    summary['samples'].append({'kind': 'exhaustive short histories', 'document': SMALL, 'alphabet': len(alpha),
+                               'length<=2 over': len(a2), 'length 3 over': len(a3), 'histories': len(cases)})
+    summary['times']['short'] = round(time.time() - t0, 1); t0 = time.time()
+    # (c) seeded random histories, grown against the implementation
+    st = Stats()
+    n = 6000 if thorough else 500
+    H = random_histories(st, rng, n, 40)
+    for k, v in st.hist.items(): summary['hist'][k] = summary['hist'].get(k, 0) + v
+    lines = [mkcase(*c) for c in H]
+    il = run_impl(lines); ml = run_model(lines, il)
+    analyse(H, il, ml, summary, memo, 'random')
+    for d, o, v in H[:3]:
+        summary['samples'].append({'kind': 'random history', 'documents': d, 'view': v, 'ops': [show_op(x) for x in o]})
+    for d, o, v in H:
+        summary['hist']['len:%d' % (10 * (len(o) // 10))] = summary['hist'].get('len:%d' % (10 * (len(o) // 10)), 0) + 1
+    summary['times']['random'] = round(time.time() - t0, 1); t0 = time.time()
+    # (d) the same histories with XPath query batches, implementation only, merged view, no dumps
+    QH = [(d, with_queries(o, rng), 'm!9999') for d, o, v in H[:(len(H) if thorough else 300)]]
+    lines = [mkcase(*c) for c in QH]
+    il = run_impl(lines)
+    analyse(QH, il, None, summary, memo, 'queries')
+    summary['times']['queries'] = round(time.time() - t0, 1)
+    summary['nontrivial'] = len(summary['nontrivial'])
+    os.makedirs(lib.WORK, exist_ok=True)
+    with open(path, 'w') as f:
+        json.dump(summary, f)
+    summary['cached'] = False
+    return summary
+
+def shrink_failure(f, prop):
+    """delta debugging over the ops of a failing history; the failure class (oracle clause) is kept"""
+    docs, view = f['docs'], f['view'].split('!')[0]
+    ops = [tuple(o) for o in f['ops']]
+    clause = f['clause']
+    def fails(cand):
+        line = run_impl([mkcase(docs, cand, view)], shards=1)
+        if not line: return False
+        recs = parse_line(line[0])
+        if not recs: return False
+        for r in recs:
+            if clause.startswith('query'):
+                qv = query_violation(r)
+                if qv and qv[0] == clause: return True
+            else:
+                vs = c12_violations(r) if prop == 'c12' else c14_violations(r)
+                if any(c == clause for c, _ in vs): return True
+        return False
+    if not fails(ops):
+        return f
+    small = ddmin(ops, fails)
+    g = dict(f); g['ops'] = [list(o) for o in small]; g['shrunk_from'] = len(ops)
+    return g
+
+def shrink_mismatch(m):
+    docs, view = m['docs'], m['view'].split('!')[0]
+    ops = [tuple(o) for o in m['ops']]
+    def fails(cand):
+        c = mkcase(docs, cand, view)
+        il = run_impl([c], shards=1); 
+        if not il: return False
+        ml = run_model([c], il, shards=1)
+        return bool(ml) and first_mismatch(il[0], ml[0]) is not None
+    if not fails(ops):
+        return m
+    small = ddmin(ops, fails)
+    g = dict(m); g['ops'] = [list(o) for o in small]; g['shrunk_from'] = len(ops)
+    return g
+
+def describe_failure(f):
+    return '%s after %s on %s' % (f.get('detail', f.get('clause', 'mismatch')), ' ; '.join(show_op(tuple(o)) for o in f['ops']) or '(no op)', f['docs'])
+
+def replay_file(path, prop):
+    d = json.load(open(path))
+    print(json.dumps({k: v for k, v in d.items() if k not in ('docs', 'ops')}, indent=1))
+    if 'docs' not in d:
+        return 0
+    docs, ops, view = d['docs'], [tuple(o) for o in d['ops']], d.get('view', 'r').split('!')[0]
+    case = mkcase(docs, ops, view)
+    il = run_impl([case], shards=1)
+    print('documents:', docs)
+    if not il:
+        print('implementation: no output'); return 1
+    ml = run_model([case], il, shards=1)
+    for i, r in enumerate(parse_line(il[0]) or []):
+        op = show_op(ops[i - 1]) if i > 0 else 'init'
+        print('%2d %-40s -> %s' % (i, op, r.result))
+        for c, det in (c12_violations(r) + c14_violations(r)):
+            print('      %s: %s' % (c, det))
+        qv = query_violation(r)
+        if qv: print('      %s: %s' % qv)
+    if ml:
+        print('model vs implementation: first differing record =', first_mismatch(il[0], ml[0]))
+    print('implementation line:'); print(il[0][:2000])
+    if ml: print('model line:'); print(ml[0][:2000])
+    return 0
